@@ -1,6 +1,6 @@
 """U7 - src/ipc.rs: thread-local side tables of IpcSender::send / OpaqueIpcMessage::to and the
 index <-> position layer (serialize_os_ipc_*, deserialize_os_ipc_*, IpcSharedMemory).  Verus."""
-from vf.gen import Unit, Fn, Clause, Hint, Rule, Loop, TlsWith, MutSelf, TailMethodToCall
+from vf.gen import Unit, Fn, Clause, Hint, Rule, Loop, TlsWith, MutSelf, TailMethodToCall, AppendArg
 
 F = "src/ipc.rs"
 
@@ -110,14 +110,44 @@ shm_ser = Fn(F, ["impl Serialize for IpcSharedMemory", "serialize"], ret="r", ex
     rules=[T_SER_RG, TailMethodToCall("D6f", r"\.serialize\(serializer\)", "serialize_usize", "serializer", "serde: usize::serialize on the if-expression")],
     safety_props=["C18"])
 
+G = "Tracked(g): Tracked<&mut Seq<OsRecv>>"
+GA = "Tracked(&mut *g)"
+sender_to_opaque = Fn(F, ["impl<T> IpcSender<T> where T: Serialize,", "to_opaque"], ret="r",
+    ensures=[Clause("ipc.IpcSender.to_opaque/ensures.same_endpoint", "r.os_sender == self.os_sender", ["C04"])], safety_props=["C18"])
+receiver_to_opaque = Fn(F, ["impl<T> IpcReceiver<T> where T: for<'de> Deserialize<'de> + Serialize,", "to_opaque"], ret="r",
+    ensures=[Clause("ipc.IpcReceiver.to_opaque/ensures.same_endpoint", "r.os_receiver == self.os_receiver", ["C04"])], safety_props=["C18"])
+opaque_sender_to = Fn(F, ["impl OpaqueIpcSender", "to"], ret="r",
+    ensures=[Clause("ipc.OpaqueIpcSender.to/ensures.same_endpoint", "r.os_sender == self.os_sender", ["C04"])], safety_props=["C18"])
+opaque_receiver_to = Fn(F, ["impl OpaqueIpcReceiver", "to"], ret="r",
+    ensures=[Clause("ipc.OpaqueIpcReceiver.to/ensures.same_endpoint", "r.os_receiver == self.os_receiver", ["C04"])], safety_props=["C18"])
+bytes_recv = Fn(F, ["impl IpcBytesReceiver", "recv"], ret="r", extra_params=G,
+    ensures=[Clause("ipc.IpcBytesReceiver.recv/ensures.raw_payload_or_converted_error",
+                    "final(g).len() == old(g).len() + 1 && final(g).drop_last() == *old(g)\n"
+                    "&& (r matches Ok(d) ==> final(g).last().ok && d@ == final(g).last().data)\n"
+                    "&& (r is Err ==> !final(g).last().ok)", ["C01", "C03"])],
+    rules=[AppendArg("B50", r"self\.os_receiver\.recv\(", GA, "platform recv stub (logs what it handed up)", min_count=1),
+           Rule("D22", r"Err\(err\.into\(\)\)", "Err(into_ipc_error(err))", "`.into()` at type IpcError (From impl of unit U4b)", min_count=1)],
+    safety_props=["C18"])
+bytes_try_recv = Fn(F, ["impl IpcBytesReceiver", "try_recv"], ret="r", extra_params=G,
+    ensures=[Clause("ipc.IpcBytesReceiver.try_recv/ensures.raw_payload_or_converted_error",
+                    "final(g).len() == old(g).len() + 1 && final(g).drop_last() == *old(g)\n"
+                    "&& (r matches Ok(d) ==> final(g).last().ok && d@ == final(g).last().data)\n"
+                    "&& (r is Err ==> !final(g).last().ok)", ["C01", "C10"])],
+    rules=[AppendArg("B50", r"self\.os_receiver\.try_recv\(", GA, "platform try_recv stub", min_count=1),
+           Rule("D22", r"Err\(err\.into\(\)\)", "Err(into_try_recv_error(err))", "`.into()` at type TryRecvError", min_count=1)],
+    safety_props=["C18"])
+
 UNIT = Unit(
     name="u7_ipc",
     prelude=["units/common.rs", "units/unix_types.rs", "units/u7_ipc.rs"],
-    groups=[("impl<T> IpcSender<T> where T: Serialize", [ipc_send]),
+    groups=[("impl<T> IpcSender<T> where T: Serialize", [ipc_send, sender_to_opaque]),
+            ("impl<T> IpcReceiver<T>", [receiver_to_opaque]),
+            ("impl OpaqueIpcSender", [opaque_sender_to]), ("impl OpaqueIpcReceiver", [opaque_receiver_to]),
+            ("impl IpcBytesReceiver", [bytes_recv, bytes_try_recv]),
             ("impl OpaqueIpcMessage", [msg_to]),
             (None, [ser_sender, ser_receiver, de_sender, de_receiver]),
             ("impl IpcSharedMemory", [shm_de, shm_ser])],
-    props=["C03", "C04", "C05", "C09", "C14", "C16", "C18"],
+    props=["C01", "C03", "C04", "C05", "C09", "C10", "C14", "C16", "C18"],
     prelude_clauses={
         "unix.OsOpaqueIpcChannel.to_sender/requires.not_already_taken": ["C16"],
         "unix.OsOpaqueIpcChannel.to_receiver/requires.not_already_taken": ["C16"],
